@@ -13,10 +13,10 @@ FRESH_PROCESS = True        # the Python lexer/listener keep package-level state
 CASE_TIMEOUT = "20s"
 RULE = ("Go files: imports (plain, aliased, module-internal), 1-6 struct/interface/other type declarations in "
         "every order relative to their value/pointer-receiver methods, free functions with (grouped, unnamed) "
-        "parameters and results, bodies of call statements (package-qualified, receiver, parameter, local "
+        "parameters and results, struct and interface types written in place as field / parameter / result types, bodies of call statements (package-qualified, receiver, parameter, local "
         "variable, local function), defer, assignments, returns, if / else / else-if / block statements nested to depth 3, "
         "body-less declarations, methods whose receiver type is declared elsewhere; Python "
-        "modules: import a / a as b / a, b / from m import x, y (parenthesised, aliased), decorated classes with "
+        "modules: import a / a as b / a, b / from m import x, y (parenthesised, with a trailing comma, aliased), decorated classes with "
         "methods, decorated functions, nested defs and classes, classes inside defs; one tagged sub-stream per (repaired "
         "or open) defect shape and the witnesses of coq/Proofs/FrontProofs.v; "
         "non-trivial = at least one class/struct/interface/function in the model's output or a crash; "
@@ -42,6 +42,8 @@ def r_type(t):
     if k == "starsel": return "*" + t[1] + "." + t[2]
     if k == "arr": return "[]" + t[1]
     if k == "arrsel": return "[]" + t[1] + "." + t[2]
+    if k == "inline": return "struct { X int; Y string }"             # a struct type written in place
+    if k == "ifacem": return "interface{ Close() error }"              # an interface type with methods written in place
     return "interface{}"
 
 def r_group(p):
@@ -170,7 +172,8 @@ def render_py(m):
             lines.append("import " + ", ".join(r_as(na) for na in it[1]))
         elif it[0] == "from":
             body = ", ".join(r_as(na) for na in it[2])
-            lines.append("from %s import %s" % (it[1], "(" + body + ")" if it[3] == "1" else body))
+            # "2": parenthesised with a trailing comma (one name per line in real code)
+            lines.append("from %s import %s" % (it[1], "(" + body + ("," if it[3] == "2" else "") + ")" if it[3] in ("1", "2") else body))
         else:
             if blank and lines: lines.append("")
             lines += r_node(it[1], 0, False, blank, tabs=(style == 4))
@@ -287,7 +290,9 @@ def gen_type(rng, types, imports, embedded=False):
     if embedded: return ["id", rng.choice(types + ["Base"])]
     if r < 0.85: return ["arr", rng.choice(BASIC + types)]
     if r < 0.92: return ["arrsel", rng.choice(pk), "T"]
-    return ["empty"]
+    if r < 0.95: return ["empty"]
+    # types written in place: they declare nothing (no data structure, no member of their own)
+    return ["inline"] if r < 0.975 else ["ifacem"]
 
 def gen_groups(rng, n, types, imports, grouped, allow_unnamed, field=False):
     """n parameter / field groups; a parameter list is all-named or all-unnamed"""
@@ -505,7 +510,7 @@ def gen_pyimport(rng, lst=False, from_as=False, plain_only=False):
     names = [[n, ""] for n in rng.sample(PY_NAMES, rng.randint(1, 3))]
     if from_as:
         names[rng.randrange(len(names))][1] = "zz"
-    return ["from", src, names, rng.choice(["0", "0", "1"])]
+    return ["from", src, names, rng.choice(["0", "0", "1", "2"])]
 
 def gen_py(rng, imp_list=False, nested_def=False, nested_class=False, from_as=False, n_decl=None, local_class=False):
     items = []
